@@ -12,11 +12,7 @@ fn main() {
     let thorough = args.tier == Tier::Thorough;
     if let Some(p) = &args.replay {
         let doc = read_replay(p);
-        println!("driver {} mode {} schedule {}", doc["driver"], doc["mode"], doc["schedule"]);
-        println!("{}", doc["detail"].as_str().unwrap_or(""));
-        for s in doc["trace"].as_array().cloned().unwrap_or_default() {
-            println!("  {:>3} T{} {:<18} {:<22} {:<18} {:<8} -> {}", s["step"], s["thread"], s["call"].as_str().unwrap_or("-"), s["op"].as_str().unwrap_or(""), s["cell"].as_str().unwrap_or(""), s["ord"].as_str().unwrap_or(""), s["result"].as_str().unwrap_or(""));
-        }
+        std::process::exit(replay_cli("C03", p, &doc, verif_harness::histdrv::driver_from_spec));
     }
     let plan = driver_set(Prop::C03, thorough);
     let labels: Vec<String> = plan.iter().map(|p| format!("{} ({:?})", p.driver.label, p.mode)).collect();
